@@ -174,6 +174,21 @@ example : Spec.Murphy.noKinkIoo (Spec.Murphy.kinksQ 3 1) (5/2) 3 := by
   intro k hk; simp only [Spec.Murphy.kinksQ, List.mem_cons, List.mem_nil_iff, or_false] at hk
   rcases hk with rfl | rfl <;> norm_num
 
+open SV.Spec.Murphy in
+/-- 'upper' = the left-limit version, all discount kinds: the 'upper' FIRM penalty at threshold t is the left limit θ ↑ t of
+    the Murphy elementary score FIRM-'lower' is built from (value at t of its affine extension from any [θ₀, t) free of kinks) -/
+theorem firm_upper_eq_murphy_left_limit_all (D : Disc) (α f o t θ₀ : Rat) (hθ : θ₀ < t)
+    (hk : noKinkIoo (kinksOf D f o) θ₀ t) : LeftLimit (murphyElem D α f o) θ₀ t (single false D α f o t) := by
+  have h := (upper_over_left_limit D α f o t θ₀ hθ hk).add' (upper_under_left_limit D α f o t θ₀ hθ hk)
+  have e : murphyElem D α f o = fun θ => murphyOver D α f o θ + murphyUnder D α f o θ := by
+    funext θ; cases D <;> rfl
+  rw [e]; exact h
+
+example : Spec.Murphy.noKinkIoo (kinksOf (.dist 1) 3 1) (5/2) 3 := by
+  intro k hk; simp only [kinksOf, Spec.Murphy.kinksH, List.mem_cons, List.mem_nil_iff, or_false] at hk
+  rcases hk with rfl | rfl | rfl | rfl <;> norm_num
+
+
 /-! ## 3. Risk matrix score -/
 
 /-- one decision point: weight · p when the forecast probability is at/above p (≥ for 'lower', > for 'upper') and the event
